@@ -229,6 +229,7 @@ package core
 // ---- compilation ----
 
 //@ iface core.Interpreters.Find(recv, name) returns (interp)
+//@   logged
 //@   modifies nothing
 
 //@ iface core.Interpreter.Compile(recv, ctx, code) returns (x, err)
@@ -238,6 +239,7 @@ package core
 //@ sig core.PatternParser(syntax, p) returns (x, err)
 //@   modifies nothing
 
+//@ globalinv DefaultBranchType: DefaultBranchType == "message" || DefaultBranchType == "bindings"
 //@ globalinv DefaultInterpreters: DefaultInterpreters != nil
 //@ globalinv InterpreterNotFound: InterpreterNotFound != nil
 //@ globalinv defaultErrorNode: defaultErrorNode != nil
@@ -248,6 +250,7 @@ package core
 //@   requires a != nil
 //@   modifies nothing
 //@   ensures[C13] compiledornot: err == nil ==> action != nil
+//@   ensures[C13] notfound: lastret(core.Interpreters.Find, interp) == nil ==> err != nil && action == nil
 
 //@ func (*Spec).ParsePatterns returns err
 //@   safety C07
@@ -268,6 +271,17 @@ package core
 //@   ensures[C13] types: err == nil ==> forall k string :: (k in spec.Nodes) ==> typeOK(spec.Nodes[k].Branches)
 //@   ensures[C13] actions: err == nil ==> forall k string :: (k in spec.Nodes) && spec.Nodes[k].ActionSource != nil ==> spec.Nodes[k].Action != nil
 //@   loop 0 invariant spec.Nodes != nil && spec.PatternParser != nil
+//@   loop 0 invariant samekeys: forall k string :: (k in spec.Nodes) <==> atloop(k in spec.Nodes)
 //@   loop 0 invariant[C07,C13] seenwf: forall k string :: seen(0)[k] ==> (k in spec.Nodes) && spec.Nodes[k] != nil && wfBranches(spec.Nodes[k].Branches) && typeOK(spec.Nodes[k].Branches) && (spec.Nodes[k].ActionSource != nil ==> spec.Nodes[k].Action != nil)
 //@   loop 1 invariant spec.Nodes != nil && spec.PatternParser != nil && n != nil && n.Branches != nil
 //@   loop 1 invariant[C07,C13] prefix: forall j int :: 0 <= j && j <= rangeindex ==> n.Branches.Branches[j] != nil
+
+// DefaultPatternParser (the function literal assigned to the package variable).
+//@ extern encoding/json.Unmarshal(data, v) returns (err)
+//@   modifies v
+
+//@ func init$1 returns x, err
+//@   safety C07
+//@   ensures[C13] none: (syntax == "none" || syntax == "") ==> x == p && err == nil
+//@   ensures[C13] unknownsyntax: syntax != "none" && syntax != "" && syntax != "json" ==> err != nil && x == nil
+//@   ensures[C13] jsonpass: syntax == "json" && !is(p, string) ==> x == p && err == nil
